@@ -223,7 +223,7 @@ pub fn run(rep: &Report) {
     }
     rep.set_exhaustive(true);
     rep.add_extra("sequence_bound", json!(format!("all sequences of length <= {} over the 17-symbol alphabet (base + true)", max_len)));
-    let n = rep.tier.pick(40_000u64, 1_000_000);
+    let n = rep.tier.pick(200_000u64, 3_000_000);
     let depth = rep.tier.pick(4u32, 6);
     common::random_search(
         rep,
